@@ -23,23 +23,25 @@ ROOTS = {
                             "(Jn is one-based and never counts 29 February, so the rule fires one day late except after February of leap years), takes the "
                             "transition day on the UTC day instead of the local day, subtracts the DST offset from both rule times and cannot carry rule times "
                             "outside 0..24 h over to a neighbouring day. Right far from the rule transitions, wrong in the days around them. Same repair as "
-                            "[posix-rule] / [local-lookup]: compute the two transition instants of the year and compare instants.",
+                            "[posix-rule] / [local-lookup]: compute the two transition instants of the year and compare instants (proposed_fixes/C15-1-posix-rule-instants.patch).",
     "mixed-day-kinds": "A footer whose start and end rules are of different kinds (valid POSIX, e.g. J60 with M11.1.0; zic writes all-year DST as 0/0,J365/25) is "
                        "answered with TemporalError::assert() (\"Mismatched day types on a POSIX string\") by cmp_seconds_to_transitions, for every instant and "
-                       "wall-clock reading the footer governs. An internal-assertion error on valid data is also a C03 violation (known_findings.d/C03.json).",
+                       "wall-clock reading the footer governs. An internal-assertion error on valid data is also a C03 violation (known_findings.d/C03.json). "
+                       "proposed_fixes/C15-1-posix-rule-instants.patch (full repair) or proposed_fixes/C03-mixed-day-kinds-minimal.patch (removes the assertion only).",
     "close-transitions": "Tzif::v2_estimate_tz_pair returns at the first table transition whose two wall-clock readings bracket the value, without looking at "
                          "its neighbours, and its result type holds at most two instants: wrong when another transition lies within the span of the zone's "
-                         "offsets (a local time type in force for less time than the offset changes by; three or more instants for one reading).",
+                         "offsets (a local time type in force for less time than the offset changes by; three or more instants for one reading). "
+                         "proposed_fixes/C15-2-close-transitions.patch repairs all but the readings with three or more instants (the result type holds two).",
     "table-end-near-rule": "Wall-clock readings up to 26 h after the last table transition are answered from the table alone (v2_estimate_tz_pair), although "
-                           "a rule transition of the footer already lies in that stretch.",
+                           "a rule transition of the footer already lies in that stretch. proposed_fixes/C15-2-close-transitions.patch.",
 }
 CAUSE = {
-    "posix-rule": "Cause: POSIX footer rule evaluation compares (month, day/7+1, weekday) triples of the UTC day and uses the DST offset for both transition times; wrong around rule transitions; no small repair",
-    "local-lookup": "Cause: beyond the transition table the wall-clock lookup is answered by resolve_posix_tz_string, which decides DST from (month, week, weekday) triples of the local value read as UTC and uses one offset for both rule times; wrong within a day of each rule transition and on the days the triple comparison misorders; no small repair",
-    "posix-rule-day-kinds": "Cause: Jn / n day rules are compared with the zero-based day of the year of the UTC day (Jn one day late), the DST offset is used for both rule times, rule times outside 0..24 h are not carried to the neighbouring day; see roots",
-    "mixed-day-kinds": "Cause: cmp_seconds_to_transitions rejects footers whose two rules are of different day kinds with TemporalError::assert(); see roots",
-    "close-transitions": "Cause: v2_estimate_tz_pair stops at the first transition whose two readings bracket the value and can hold at most two instants; see roots",
-    "table-end-near-rule": "Cause: readings within 26 h after the last table transition never consult the footer; see roots",
+    "posix-rule": "Cause: POSIX footer rule evaluation compares (month, day/7+1, weekday) triples of the UTC day and uses the DST offset for both transition times; wrong around rule transitions; repair: proposed_fixes/C15-1-posix-rule-instants.patch",
+    "local-lookup": "Cause: beyond the transition table the wall-clock lookup is answered by resolve_posix_tz_string, which decides DST from (month, week, weekday) triples of the local value read as UTC and uses one offset for both rule times; wrong within a day of each rule transition and on the days the triple comparison misorders; repair: proposed_fixes/C15-1-posix-rule-instants.patch",
+    "posix-rule-day-kinds": "Cause: Jn / n day rules are compared with the zero-based day of the year of the UTC day (Jn one day late), the DST offset is used for both rule times, rule times outside 0..24 h are not carried to the neighbouring day; see roots; repair: proposed_fixes/C15-1-posix-rule-instants.patch",
+    "mixed-day-kinds": "Cause: cmp_seconds_to_transitions rejects footers whose two rules are of different day kinds with TemporalError::assert(); see roots; repair: proposed_fixes/C15-1-posix-rule-instants.patch or C03-mixed-day-kinds-minimal.patch",
+    "close-transitions": "Cause: v2_estimate_tz_pair stops at the first transition whose two readings bracket the value and can hold at most two instants; see roots; repair (up to two instants): proposed_fixes/C15-2-close-transitions.patch",
+    "table-end-near-rule": "Cause: readings within 26 h after the last table transition never consult the footer; see roots; repair: proposed_fixes/C15-2-close-transitions.patch",
 }
 
 
